@@ -222,3 +222,13 @@ package auth
 //@ func SetCookieStore$1$1(c *sessions.CookieStore) error
 //@   modifies c.CookieDomain, c.CookieHTTPOnly, c.CookieExpire, c.CookieSecure
 //@   ensures [C18] cookie_attributes_are_the_configured_ones: result == nil && c.CookieDomain == cc.Domain && c.CookieHTTPOnly == cc.HTTPOnly && c.CookieExpire == cc.Expire && c.CookieSecure == cc.Secure
+
+// ---- C20: a JSON error body goes out as the encoder wrote it ---------------------------------------------------------
+// The only header the helper sets is the content type: the length of the body is net/http's to work out (a declared
+// length that differs from what the encoder writes truncates the document or ends the connection).
+//@ func writeJSONResponse(rw http.ResponseWriter, code int, response interface{})
+//@   modifies rw.$status, rw.$bodyWritten, hdrmap(rw.$hdr), ghost("$status"), ghost("$bodyWritten")
+//@   ensures [C20] only_the_content_type_is_set: forall k string :: k != "Content-Type" ==> (k in rw.$hdr) == old(k in rw.$hdr) && rw.$hdr[k] == old(rw.$hdr[k])
+//@   ensures [C20] labelled_json: hdrIs(rw.$hdr, "Content-Type", "application/json")
+//@   ensures [C20] with_the_given_status: old(rw.$status) == 0 && code != 0 ==> rw.$status == code
+//@   ensures status_kept: old(rw.$status) != 0 ==> rw.$status == old(rw.$status)
